@@ -153,6 +153,15 @@ inductive Op where
   | trim (c : Nat)
 deriving Repr
 
+/-- `wal.Purge k` seen at entry level: entries at or above `k` stay; an entry below `k` stays as often
+as it occurs in `keep` (whole files are deleted, the active file never is). -/
+def purgeWal (k : Nat) : List Msg → List Msg → List Msg
+  | [], _ => []
+  | e :: t, keep =>
+    if k ≤ e.inst then e :: purgeWal k t keep
+    else if keep.contains e then e :: purgeWal k t (keep.erase e)
+    else purgeWal k t keep
+
 /-- one rebroadcast: filter, then publish -/
 def rebroadcastOne (st : Filter × List Msg) (m : Msg) : Filter × List Msg :=
   let (f, ok) := st.1.processBroadcast m
@@ -182,7 +191,7 @@ def step (s : Sys) (op : Op) : Sys :=
   | .receive p m => if !s.up then s else { s with filter := s.filter.processReceive p m }
   | .purge k keep =>
     if !s.up then s else
-    { s with wal := s.wal.filter (fun e => decide (k ≤ e.inst) || keep.contains e), purged := max s.purged k }
+    { s with wal := purgeWal k s.wal keep, purged := max s.purged k }
   | .trim c => if !s.up then s else { s with self := s.self.filter (fun m => decide (c ≤ m.inst)) }
 
 def run (s : Sys) : List Op → Sys
